@@ -35,6 +35,50 @@ PROP = dict(
         _h("main", ".", "zz_verif_c12main_test.go", "harness/main/c12main_test.go", run="^TestVerif_C12main",
            extra={"zz_verif_fixture_test.go": "harness/main/fixture_test.go"}, timeout=1200, timeout_thorough=2400),
     ],
-    technique="TODO", level_text="TODO", level_note="TODO", design_ref="5 (C12)",
-    trusted=[] + COMMON_TRUSTED, assumptions=[],
+    technique="Coq totality proofs over executable models of the parsers with explicit Ok | Err | Panic outcomes, explicit allocation "
+              "sizes and a guard flag per bounds check (compact index Open/Load/GetBucket/Lookup, 8-byte metadata values, CAR sections and the "
+              "section loop, block-time table, sig-exists header, linked-log records, kind dispatch, GetBlock's transaction loop; fast IPLD "
+              "decoders over a CBOR item model) + a go/ast translator that lists every potential crash site of the anchored files, which a Coq "
+              "table must classify + structure-aware mutation of VALID files written by the repository's own writers, run through the real "
+              "entry points in a child process under ulimit -v with recover(), per-call allocation accounting and a per-input timeout; "
+              "outcome classes compared with the models under the guard flags measured with the refutation witnesses",
+    level_text="Theorems (Coq, no axioms), for ALL byte strings / files / (offset,size) arguments / hash values: the repaired compactindexsized.Open "
+               "and Header.Load never panic and request at most 2*len+64KiB bytes; GetBucket+Lookup never panic and the eytzinger descent ends "
+               "by itself; the incremental header read accepts every header the stream really holds; getDefaultMetadata/GetUint64 never panic "
+               "on a value of any length; ReadNodeInfoWithData never panics, requests at most 32 MiB (go-car's cap) and the section loop ends "
+               "on every finite stream (each section consumes input); blocktimeindex.FromBytes never panics and requests at most 2*len bytes, "
+               "Index.Get never panics; bucketteer.NewReader requests at most 2*len+1MiB; linkedlog.ReadWithSize never panics and requests at "
+               "most min(256 MiB, file length); the data[1] kind dispatch and GetBlock's transaction loop never panic; every fast decoder is "
+               "total on every byte string (a panic is possible only at an unguarded assertion site); data-frame collection terminates (C14). "
+               "For every guard a refutation theorem with concrete witness bytes shows the code WITHOUT the guard panics or requests an "
+               "allocation unrelated to the input (256 MiB for 26 bytes, 8 TiB for 50 bytes, 4 GiB for 12 bytes). Every index/slice/array "
+               "conversion/assertion/make/division/panic site that gen/c12.go finds in the reader-side functions of the anchored files is "
+               "classified (guarded by a named theorem | cannot fail for a stated local reason | removed by a named repair); an unclassified "
+               "site stops the build. Tie: 15 harness parts, about 190 000 mutated inputs in the quick tier (length/count/size/offset fields "
+               "set to 0, 1, max and values inconsistent with the file size, truncation at structure boundaries, random edits, junk) through "
+               "Open/Lookup/Load, OpenWithReader_* (4 kinds + legacy dispatch), NewReader/Has, FromBytes/FromFile/Get, carreader loops, "
+               "ReadWithSize/Read, NewManifest/ReadAll, UnmarshalBinary/getters, the deprecated readers, ParseAnyTransactionStatusMeta, "
+               "ObjectAccumulator, parseNodeFromSection & friends, carCountItemsByFirstByte, getBlock/GetBlock over a CAR with an undecodable "
+               "object, and the seven Decode<Kind> functions; outcome classes (and decoded header fields / consumed bytes) of about 4 000 "
+               "sampled inputs are compared with the models by coqc.",
+    level_note="Partial: allocation is bounded by a linear function of the input only where the reader can know the input size; two bounds are "
+               "constants inherited from the formats (32 MiB CAR section cap of go-car, 16 MiB = 3-byte size field of index entries). "
+               "Third-party and generated decoders (fxamacker/cbor, go-cid, go-car header, klauspost zstd, protobuf, the serde-generated bincode "
+               "readers) are not modelled: they are exercised by the mutation harnesses only; the zstd decoder allocating the content size "
+               "DECLARED by a frame header is a recorded known finding (known-findings.txt). Native Go fuzzing is not wired into the tiers "
+               "(the mutation stream is deterministic from VERIF_SEED). Forced hypothesis of the block-time theorem: the input is an in-memory "
+               "byte slice (< 2^47 bytes). Trusted: Coq kernel; hand-written models tied by the correspondence; the Go runtime's rules for "
+               "makeslice / slice bounds as transcribed (len > maxAlloc/elemsize or negative panics).",
+    design_ref="5 (C12)",
+    trusted=["models C12_Parsers.v (hand-written transcription of compactindexsized/{compactindex,query}.go, indexes/metadata.go, indexmeta, "
+             "carreader/reader.go, blocktimeindex/writer.go, bucketteer/read.go, gsfa/linkedlog/linked-log.go with the fixes/C12-*.diff applied; "
+             "tied by outcome-class correspondence on mutated valid files) and C11_Nodes.v (decoders)",
+             "site classification C12_Sites.v: 'Trusted' entries are local syntactic arguments checked by reading (constant index into a fixed-size "
+             "array, length test in the preceding statement, map access, size bounded by a uint8 / 3-byte field)",
+             "go-cid CidFromReader, go-car LdRead/ReadHeader, fxamacker/cbor, klauspost/compress zstd, protobuf, serde bincode runtime: third-party, "
+             "assumed to return an error and never panic; fuzzed through every entry point that reaches them",
+             "gen/c12.go lists syntactic sites only (no nil-pointer dereferences, no integer overflow, no goroutine leaks)"] + COMMON_TRUSTED,
+    assumptions=["inputs are finite byte strings; block-time inputs are in-memory slices shorter than 2^47 bytes",
+                 "runtime.maxAlloc = 2^48 (linux/amd64) in the makeslice rule of the block-time model",
+                 "the size argument of ReadWithSize and the Size field of index entries are part of the input (allocation is bounded in them)"],
 )
